@@ -95,7 +95,23 @@ def corpus():
     ]
 
 
+def split_cases():
+    """every success reply form (IPv4, IPv6, domain name), cut in two at every position, followed by application bytes in pieces
+    of 1, 3 and 21 bytes: whatever the parser remembers from a short read must not delay what follows the reply"""
+    method = bytes.fromhex('0500')
+    replies = [bytes.fromhex('05000001' + '01020304' + '0050'), bytes.fromhex('05000004' + '20010db8000000000000000000000001' + '01bb'),
+               bytes.fromhex('05000003' + '0b') + b'example.com' + bytes.fromhex('0050')]
+    data = bytes(range(65, 65 + 26)) + bytes(range(97, 97 + 24))
+    for rep in replies:
+        for cut in range(1, len(rep)):
+            for size in (1, 3, 21):
+                parts = [method, rep[:cut], rep[cut:]] + [data[i:i + size] for i in range(0, min(len(data), size * 4), size)]
+                yield {'req': 'CONNECT', 'host': 'example.com', 'port': 80, 'chunks': [p.hex() for p in parts], 'lost': None}
+
+
 def gen_cases(rng, tier):
+    for c in split_cases():
+        yield c
     n = 120 if tier == 'quick' else 4000
     for _ in range(n):
         req = rng.choice(['CONNECT', 'CONNECT', 'CONNECT', 'RESOLVE', 'RESOLVE_PTR'])
